@@ -682,6 +682,34 @@ def stale_text_pointers(prog, chk, rid, fs):
         raise AnalysisBroken("C06.l: may-detach summary has only %d members" % len(may))
 
 
+def _is_previous_hit(f, base, l, st):
+    """is `base` the previous hit held by the local `l` when the search `st` is repeated: `l` itself, or a local whose one reaching
+    definition is a copy of `l` that no store to `l` can follow before the search"""
+    b = f.nodes[f.strip(base)]
+    if b["k"] != "DeclRefExpr" or b["ref"].get("dk") not in ("local", "parm"):
+        return False
+    if b["ref"]["id"] == l["ref"]["id"]:
+        return True
+    defs = q.local_defs(f)
+    rd = q.reaching_def(f, b["ref"]["id"], st.node, defs)
+    if rd is None:
+        return False
+    r = f.nodes[f.strip(rd)]
+    if r["k"] != "DeclRefExpr" or r["ref"].get("id") != l["ref"]["id"]:
+        return False
+    dp = [f.node_pos(d[1]) for d in defs.get(b["ref"]["id"], []) if d[2] == rd]
+    up = f.node_pos(st.node)
+    if not dp or dp[0] is None or up is None:
+        return False
+    for o in defs.get(l["ref"]["id"], []):
+        op = f.node_pos(o[1])
+        if op is None or op == up:
+            continue
+        if f.find_path(dp[0], {op}, avoid={up}) is not None and f.find_path(op, {up}, avoid={dp[0]}) is not None:
+            return False
+    return True
+
+
 def last_occurrence_scans(prog, chk, rid, fs):
     """findLast / findLastOf look for the LAST occurrence by repeating a forward search: occurrences may overlap ("aa" in "aaa"), so
     the next search has to restart exactly one byte behind the previous hit - further on, and the true last occurrence is stepped over"""
@@ -698,7 +726,7 @@ def last_occurrence_scans(prog, chk, rid, fs):
             if l["k"] != "DeclRefExpr" or rn["k"] not in ("CallExpr", "CXXMemberCallExpr") or (rn.get("callee") or "") not in SEARCH:
                 continue
             a0 = f.nodes[f.strip(q.call_args(f, rn["i"])[0])]
-            if a0["k"] != "BinaryOperator" or a0.get("op") != "+" or q.no_casts(f.r(a0["c"][0])) != l["ref"]["n"]:
+            if a0["k"] != "BinaryOperator" or a0.get("op") != "+" or not _is_previous_hit(f, a0["c"][0], l, st):
                 chk.bad(rid, f, "last-occurrence-restart-shape", f.where(st.node), "the repeated search does not restart from `%s + 1`" % l["ref"]["n"])
                 continue
             k = fin.eval_expr(f, a0["c"][1], {})
